@@ -274,11 +274,11 @@ func (ln *lane) handshake(sc *StreamCase, bound time.Duration, obs map[string]an
 	}
 
 	// a CONNECT the agent must hear about, with exactly the request's fields
-	t, got, pf := ln.waitTask(bound, func(t *sockTask) bool { return t.Sub == subConnect })
+	t, haveTask, pf := ln.waitTask(bound, func(t *sockTask) bool { return t.Sub == subConnect })
 	if pf != nil {
 		return nil, pf
 	}
-	if !got {
+	if !haveTask {
 		stray, _ := readIdle(conn, time.Millisecond, 1024)
 		sig := "connect-task:missing"
 		if sc.cutsInsideAddress() {
